@@ -384,7 +384,7 @@ def read_idx(env, art, data):
     from dulwich.object_store import DiskObjectStore
     from dulwich.pack import load_pack_index
     A = L.artefacts()
-    pk = A[art["pack"]]
+    pk = L.sibling_pack(art["pack"]) if art.get("splice") else A[art["pack"]]
     d = env.fresh("disk")
     pd = os.path.join(d, "pack")
     name = "pack-" + "1" * 40
@@ -432,7 +432,20 @@ def read_loose(env, art, data):
             return {"same": raw == art["content"] and o.type_num == art["type"], "hash_ok": L.oid(o.type_num, raw).hex() == h}
         finally:
             st.close()
-    r = {"verified": timed(rd)}
+    def raw():
+        st = DiskObjectStore(d)
+        try:
+            t, rawc = st.get_raw(h.encode())
+            return {"same": rawc == art["content"] and t == art["type"], "hash_ok": L.oid(t, rawc).hex() == h}
+        finally:
+            st.close()
+
+    def from_path():
+        from dulwich.objects import ShaFile
+        o = ShaFile.from_path(os.path.join(d, h[:2], h[2:]))
+        rawc = o.as_raw_string()
+        return {"same": rawc == art["content"] and o.type_num == art["type"], "hash_ok": L.oid(o.type_num, rawc).hex() == h}
+    r = {"verified": timed(rd), "raw": timed(raw), "from_path": timed(from_path)}
     shutil.rmtree(d, ignore_errors=True)
     return r
 
@@ -525,9 +538,18 @@ def read_midx(env, art, data):
         st = DiskObjectStore(d)
         try:
             ids, bad = L.observe_store(st, strict=True)
+            mis = sum(1 for b in bad if b.endswith(":misnamed"))
             for h in ids:
                 st.contains_packed(h.encode())
-            return {"n": len(ids), "bad": len(bad)}
+                try:
+                    o = st[h.encode()]
+                    if L.oid(o.type_num, o.as_raw_string()).hex() != h:
+                        mis += 1
+                except (MemoryError, RecursionError):
+                    raise
+                except Exception:       # noqa: BLE001
+                    pass
+            return {"n": len(ids), "bad": len(bad), "misnamed": mis}
         finally:
             st.close()
     r = {"load": timed(load), "use": timed(use)}
@@ -649,9 +671,10 @@ def _store_with(env, files):
 def seq_idx(env, art, data):
     """one DiskObjectStore over pack + (damaged) index: every object asked for twice in a row"""
     from dulwich.object_store import DiskObjectStore
-    pk = L.artefacts()[art["pack"]]
+    pk = L.artefacts()[art["pack"]]                     # the names asked for are those the index lists
+    packfile = L.sibling_pack(art["pack"])["data"] if art.get("splice") else pk["data"]
     name = "pack/pack-" + "1" * 40
-    d = _store_with(env, {name + ".pack": pk["data"], name + ".idx": data})
+    d = _store_with(env, {name + ".pack": packfile, name + ".idx": data})
     out = []
     st = DiskObjectStore(d)
     try:
@@ -748,7 +771,8 @@ def seq_case(env, name, art, data):
     intact artefact gives at the same position: error | same | pristine | differs"""
     fn = SEQ_READERS[art["kind"]]
     if name not in _SEQ_INTACT:
-        _SEQ_INTACT[name] = fn(env, art, art["data"])[0]
+        genuine = L.artefacts()[name]
+        _SEQ_INTACT[name] = fn(env, genuine, genuine["data"])[0]
     intact = _SEQ_INTACT[name]
 
     def go():
@@ -923,6 +947,184 @@ def loose_bomb_case(env, c):
             "returned": t[4], "peak_kb": peak // 1024, "file_kb": len(data) // 1024}
 
 
+# --------------------------------------------------------------------------- failed transfer: a deepening fetch whose pack is damaged in transit
+_FETCH = {}
+
+
+def _mk_commit(store, parents, n):
+    from dulwich.objects import Blob, Commit, Tree
+    b = Blob.from_string(b"contents of file, revision %d\n" % n * 5)
+    t = Tree()
+    t.add(b"f", 0o100644, b.id)
+    c = Commit()
+    c.tree = t.id
+    c.parents = parents
+    c.author = c.committer = L.ID
+    c.author_time = c.commit_time = 1000 + n
+    c.author_timezone = c.commit_timezone = 0
+    c.message = b"commit %d\n" % n
+    for o in (b, t, c):
+        store.add_object(o)
+    return c.id
+
+
+def repo_state(path):
+    """everything a transfer can touch, as seen by a fresh reader: visible objects, and every file of the control
+    directory outside objects/ (shallow, refs, packed-refs, HEAD, FETCH_HEAD, config, ...) with its content hash.
+    Lock files and in-flight temporary packs are not part of the observable state."""
+    from dulwich.repo import Repo
+    r = Repo(path)
+    try:
+        ids, bad = L.observe_store(r.object_store)
+        cd = r.controldir()
+    finally:
+        r.close()
+    items = ["obj:" + h for h in ids]
+    for dp, dn, fn in os.walk(cd):
+        rel = os.path.relpath(dp, cd)
+        if rel == "objects" or rel.startswith("objects" + os.sep):
+            continue
+        for f in fn:
+            if f.endswith(".lock"):
+                continue
+            with open(os.path.join(dp, f), "rb") as fh:
+                items.append("file:" + os.path.normpath(os.path.join(rel, f)) + "=" + sha1(fh.read()).hexdigest()[:16])
+    return sorted(items), bad
+
+
+class corrupting_transport:
+    """the pack stream a wire client receives is damaged on its way into the repository (one bit flipped, or
+    everything from a position on lost): wraps the pack_data callback every fetch entry point hands to fetch_pack"""
+
+    def __init__(self, mut, counter=None):
+        self.mut, self.counter = mut, counter
+
+    def __enter__(self):
+        import dulwich.client as dc
+        self.cls = dc.TraditionalGitClient
+        self.orig = self.cls.fetch_pack
+        mut, counter, orig = self.mut, self.counter, self.orig
+
+        def fetch_pack(client, path, determine_wants, graph_walker, pack_data, *a, **kw):
+            seen = [0]
+
+            def damaged(data):
+                start = seen[0]
+                seen[0] += len(data)
+                if counter is not None:
+                    counter[0] += len(data)
+                if mut is None:
+                    return pack_data(data)
+                kind, pos = mut[0], mut[1]
+                if kind == "bit" and start <= pos < start + len(data):
+                    b = bytearray(data)
+                    b[pos - start] ^= 1 << mut[2]
+                    data = bytes(b)
+                elif kind == "trunc":          # a (hostile) server ends the pack early
+                    if start >= pos:
+                        return None
+                    data = data[:pos - start]
+                elif kind == "hangup" and start + len(data) > pos:     # the connection drops inside the pack
+                    from dulwich.errors import HangupException
+                    if pos > start:
+                        pack_data(data[:pos - start])
+                    raise HangupException()
+                return pack_data(data)
+            return orig(client, path, determine_wants, graph_walker, damaged, *a, **kw)
+        self.cls.fetch_pack = fetch_pack
+        return self
+
+    def __exit__(self, *a):
+        self.cls.fetch_pack = self.orig
+        return False
+
+
+def fetch_setup(env):
+    """in-process git:// server with a three-commit history, a depth-1 clone of it, and the length of the pack a
+    deepening fetch (depth 2) transfers"""
+    if _FETCH:
+        return _FETCH
+    import threading
+
+    from dulwich.client import TCPGitClient
+    from dulwich.repo import Repo
+    from dulwich.server import DictBackend, TCPGitServer
+    root = os.path.join(env.scratch, "fetch")
+    os.makedirs(root)
+    src = Repo.init(os.path.join(root, "src"), mkdir=True)
+    c1 = _mk_commit(src.object_store, [], 1)
+    c2 = _mk_commit(src.object_store, [c1], 2)
+    c3 = _mk_commit(src.object_store, [c2], 3)
+    src.refs[b"refs/heads/master"] = c3
+    server = TCPGitServer(DictBackend({b"/": src}), "127.0.0.1", 0)
+    port = server.server_address[1]
+    threading.Thread(target=server.serve_forever, daemon=True).start()
+    pristine = os.path.join(root, "pristine")
+    dst = Repo.init(pristine, mkdir=True)
+    TCPGitClient("127.0.0.1", port=port).fetch(b"/", dst, depth=1)
+    dst.refs[b"refs/heads/master"] = c3
+    cfg = dst.get_config()
+    cfg.set((b"remote", b"origin"), b"url", b"git://127.0.0.1:%d/" % port)
+    cfg.set((b"remote", b"origin"), b"fetch", b"+refs/heads/*:refs/remotes/origin/*")
+    cfg.write_to_path()
+    dst.close()
+    n = [0]
+    probe = os.path.join(root, "probe")
+    shutil.copytree(pristine, probe)
+    r = Repo(probe)
+    try:
+        with corrupting_transport(None, n):
+            TCPGitClient("127.0.0.1", port=port).fetch(b"/", r, depth=2)
+    finally:
+        r.close()
+    good, _ = repo_state(probe)
+    before, _ = repo_state(pristine)
+    if n[0] < 40 or good == before or not any(x.startswith("file:shallow=") for x in before):
+        raise RuntimeError(f"fetch scenario not as expected: pack {n[0]} bytes")
+    _FETCH.update(server=server, port=port, pristine=pristine, n=n[0], before=before, good=good, root=root, src=src)
+    return _FETCH
+
+
+def fetch_muts(n, step):
+    pos = sorted(set(range(0, n, step)) | set(range(max(0, n - 20), n)))
+    # trunc@<12 (no pack at all) is not a failed ingestion: nothing is ingested and the call succeeds -- whether the shallow
+    # boundary may then move belongs to the completeness of a transfer (C05), not to containment
+    return ([["bit", p, p % 8] for p in pos] + [["trunc", p] for p in pos[::2] if p >= 12]
+            + [["hangup", p] for p in pos[1::4]])
+
+
+def fetch_case(env, c):
+    import io
+
+    from dulwich.repo import Repo
+    F = fetch_setup(env)
+    muts = fetch_muts(F["n"], c["step"])[c["part"]::c["parts"]] if c.get("mut") is None else [c["mut"]]
+    evs = []
+    for mut in muts:
+        env.n += 1
+        work = os.path.join(env.scratch, f"fetchwork{env.n}")
+        shutil.copytree(F["pristine"], work)
+
+        def go():
+            with corrupting_transport(mut):
+                if c["entry"] == "client":
+                    from dulwich.client import TCPGitClient
+                    r = Repo(work)
+                    try:
+                        TCPGitClient("127.0.0.1", port=F["port"]).fetch(b"/", r, depth=2)
+                    finally:
+                        r.close()
+                else:
+                    from dulwich import porcelain
+                    porcelain.fetch(work, "origin", outstream=io.StringIO(), errstream=io.BytesIO(), depth=2)
+        oc, exc, msg, wall, v = timed(go)
+        post, bad = repo_state(work)
+        evs.append({"mut": mut, "path": "fetch:" + c["entry"], "outcome": oc, "exc": exc, "msg": msg, "wall_ms": round(wall, 2),
+                    "pre": F["before"], "post": post, "bad": bad, "as_good": post == F["good"]})
+        shutil.rmtree(work, ignore_errors=True)
+    return {"events": evs, "pack_len": F["n"]}
+
+
 # --------------------------------------------------------------------------- (c) one ingestion under os-level interposition
 KEY_OPS = {"open_excl": "create", "open_w": "create", "chmod": "chmod", "fwrite": "write", "write": "write", "fflush": "flush",
            "fclose": "close", "close": "close", "unlink": "unlink", "rename": "rename", "replace": "replace"}
@@ -1074,7 +1276,12 @@ def run_case(env, c):
     if k == "damage":
         A = L.artefacts()
         art = A[c["art"]]
-        data = L.apply_mutation(art["data"], tuple(c["mut"]))
+        if c["mut"][0] == "redir":          # multi-pack-index: offset of object i := offset of object j
+            data = L.midx_redirect(art["data"], c["mut"][1], c["mut"][2])
+        elif c["mut"][0] == "splice":       # intact pack index over ANOTHER pack of the same layout
+            data, art = art["data"], dict(art, splice=True)
+        else:
+            data = L.apply_mutation(art["data"], tuple(c["mut"]))
         if data is None:
             return {"skip": True}
         if art["kind"] == "pack":
@@ -1094,6 +1301,8 @@ def run_case(env, c):
         return bomb_case(env, c["which"])
     if k == "loosebomb":
         return loose_bomb_case(env, c)
+    if k == "fetch":
+        return fetch_case(env, c)
     if k == "tx":
         data = L.tx_scenarios()[c["scenario"]]
         return TxRun(env, c["path"], data, c.get("k"), c.get("exc")).run()
